@@ -337,6 +337,8 @@ func runC18(c *fw.Ctx) {
 	c.Case(func(k *fw.K) { c18FirstDraws(k, int64(c.Shard)); c18Full(k) })
 	c.Case(func(k *fw.K) { c18FirstDraws(k, int64(c.Shard)); c18Reconstruct(k) })
 	c.Case(func(k *fw.K) { c18FirstDraws(k, int64(c.Shard)); c18CrossFamily(k, c.Pick(20000, 200000)) })
+	// draws made inside the exported helper tensor.RunTestLogicOnDevices, in several invocations: as fresh as anywhere else
+	c.Case(func(k *fw.K) { c18FirstDraws(k, int64(c.Shard)); c18InsideDeviceHelper(k) })
 	// long histories of small draws: no tensor ever comes back (a generator re-seeded per call from a small seed space repeats
 	// whole tensors tens of thousands of calls apart, where no consecutive-call or pooled-moment statistic looks)
 	specs := c18Specs()
@@ -443,6 +445,60 @@ func c18CrossFamily(k *fw.K, n int) {
 
 // c18Reconstruct: model code builds its initializers layer by layer - construct, Init, construct, Init ... within the same
 // instant. Constructing an initializer must not rewind the stream of draws: consecutive results are fresh.
+// c18InsideDeviceHelper: the k-th random request of one invocation of tensor.RunTestLogicOnDevices must not be the k-th request of
+// the next invocation again.
+func c18InsideDeviceHelper(k *fw.K) {
+	k.Key("inside-device-helper")
+	xrand.Seed(uint64(k.Rng.Int63()))
+	hu := mustInit(initializers.NewHeUniform(&initializers.HeUniformConfig{FanIn: 3}))
+	nn := mustInit(initializers.NewNormal(&initializers.NormalConfig{Mean: 1, StdDev: 2}))
+	var runs [][][]float64
+	for inv := 0; inv < 4; inv++ {
+		var got [][]float64
+		var ferr error
+		tensor.RunTestLogicOnDevices(func(dev tensor.Device) {
+			for _, f := range []func() (tensor.Tensor, error){
+				func() (tensor.Tensor, error) { return hu.Init([]int{6}) },
+				func() (tensor.Tensor, error) { return nn.Init([]int{2, 3}) },
+				func() (tensor.Tensor, error) { return tensor.RandU([]int{5}, -1, 1, &tensor.Config{Device: dev}) },
+				func() (tensor.Tensor, error) { return tensor.RandN([]int{5}, 0, 1, &tensor.Config{Device: dev}) },
+			} {
+				t, err := f()
+				if err != nil || t == nil {
+					ferr = fmt.Errorf("draw inside the helper: %v", err)
+					return
+				}
+				x, err := rt.Read(t)
+				if err != nil {
+					ferr = err
+					return
+				}
+				got = append(got, x.Data)
+			}
+		})
+		if ferr != nil {
+			k.Failf("%v", ferr)
+			return
+		}
+		runs = append(runs, got)
+	}
+	k.Count("draws_inside_the_device_helper", int64(len(runs)*4))
+	for a := 0; a < len(runs); a++ {
+		for b := a + 1; b < len(runs); b++ {
+			for q := range runs[a] {
+				same := q < len(runs[b])
+				for e := range runs[a][q] {
+					same = same && runs[a][q][e] == runs[b][q][e]
+				}
+				if same {
+					k.Failf("request %d of invocation %d of tensor.RunTestLogicOnDevices returned exactly the tensor %v that request %d of invocation %d had returned: draws are not fresh on every call", q, b, runs[b][q], q, a)
+					return
+				}
+			}
+		}
+	}
+}
+
 // c18LongHistory: n calls of one generator for a 4-element tensor; every returned tensor is remembered by its exact bits and none
 // may be returned twice (4 equal doubles by chance: below 2^-120 even with the 32-bit resolution of the normal ziggurat).
 func c18LongHistory(k *fw.K, d distSpec, n int) {
@@ -624,6 +680,7 @@ func c18Dist(k *fw.K, d distSpec, target int) {
 	var prev *ref.T
 	equalPos, comparedPos := 0, 0
 	totalDups, expectedDups := 0, 0.
+	twoN, twoClose, twoFar := 0, 0, 0
 	calls := 0
 	disturbers := []func(s []int) (tensor.Tensor, error){
 		func(s []int) (tensor.Tensor, error) { return tensor.RandN(s, 1000, 500, nil) },
@@ -719,6 +776,18 @@ func c18Dist(k *fw.K, d distSpec, target int) {
 				return
 			}
 		}
+		if d.normal && len(x.Data) == 2 && d.b > 0 { // the two elements of a two-element tensor are independent draws: their standardised difference is N(0,1)
+			dd := math.Abs(x.Data[0]-x.Data[1]) / (d.b * math.Sqrt2)
+			if !math.IsNaN(dd) && !math.IsInf(dd, 0) {
+				twoN++
+				if dd < 0.5 {
+					twoClose++
+				}
+				if dd > 1.5 {
+					twoFar++
+				}
+			}
+		}
 		all = append(all, x.Data...)
 		pos0 = append(pos0, x.Data[0])
 		posLast = append(posLast, x.Data[len(x.Data)-1])
@@ -762,6 +831,22 @@ func c18Dist(k *fw.K, d distSpec, target int) {
 		return
 	}
 	k.Count("statistical_checks", 2)
+	if twoN >= 60 {
+		// |N(0,1)| < 0.5 with probability 0.38292, > 1.5 with probability 0.13361 (a generator that redraws "unlucky" tiny tensors, or
+		// ties the elements of one tensor together, moves these)
+		for _, q := range []struct {
+			n    int
+			p    float64
+			what string
+		}{{twoClose, 0.3829249225480262, "closer than half a standard deviation (of the difference)"}, {twoFar, 0.13361440253771617, "further apart than 1.5 standard deviations (of the difference)"}} {
+			mean, sd := float64(twoN)*q.p, math.Sqrt(float64(twoN)*q.p*(1-q.p))
+			if math.Abs(float64(q.n)-mean) > 6.5*sd {
+				k.Failf("%s: of %d two-element tensors %d have their elements %s, %.1f expected (+-%.1f): the elements of one small tensor are not independent draws", name, twoN, q.n, q.what, mean, sd)
+				return
+			}
+		}
+		k.Count("statistical_checks", 2)
+	}
 	if !d.normal && totalDups > poissonLimit(expectedDups, 1e-10) {
 		k.Failf("%s: %d repeated values inside tensors over the whole run, %.3g expected at the resolution of the interval: element positions share draws", name, totalDups, expectedDups)
 		return
